@@ -41,6 +41,7 @@ def run(ctx):
     rule_b(ctx, cr)
     rule_c(ctx, cr)
     rule_d(ctx, cr)
+    rule_linekinds(ctx, cr)
     rule_e(ctx, cr)
 
 
@@ -123,6 +124,27 @@ def rule_c(ctx, cr):
     lv = [v for v in st["variants"] if v["name"] == "Listing"]
     ctx.check(bool(lv) and "RangeInclusive" in lv[0]["fields"][0]["ty"], "C15.c",
               "State::Listing/type", "", "the LIST state carries an inclusive range")
+
+
+def rule_linekinds(ctx, cr):
+    """the operand parser accepts every literal kind the scanner produces for 0..65529"""
+    f = cr.need_fn("lang::parse::BasicParser<'a>::maybe_line_number")
+    ctx.touch(f)
+    kinds = set()
+    for b, i, st in f.aggregates("std::option::Option"):
+        if st["rv"]["variant"] != "Some":
+            continue
+        for c in f.conds_at(b):
+            if c[0] == "variant" and c[2] == "lang::token::Literal":
+                kinds.add(c[3])
+    ps = f.calls_matching(r"<impl str>::parse$")
+    ctx.check({"Integer", "Single"} <= kinds and len(ps) == 1, "C15.d",
+              "maybe_line_number/literal-kinds", f.span,
+              "line-number operands are read from Integer and Single literals (a whole number "
+              "above 32767 is scanned as a Single): %s" % sorted(kinds),
+              "maybe_line_number() reads a line number only from %s literals: the scanner types "
+              "every whole number above 32767 as Single, so LIST / DELETE / GOTO operands "
+              "32768..65529 are rejected as invalid" % sorted(kinds))
 
 
 def rule_d(ctx, cr):
